@@ -271,14 +271,14 @@ Section TF.
   Qed.
 End TF.
 
-(* reorder_funcs runs its topological sort from the state reorder_prepare builds, on reorder_fuel *)
+(* reorder_funcs runs its topological sort from the state reorder_prepare builds, with phi of that state as fuel *)
 Lemma reorder_funcs_prepare te funcs :
   reorder_funcs te funcs =
   if negb (existsb is_reorder funcs) then Ok funcs else
   let '(st, x1) := reorder_prepare te funcs in
   let n := length funcs in
   let idx := seq_from 0 n in
-  let xf := topo_run te funcs (rs_down st) (rs_up st) (reorder_fuel st) x1 in
+  let xf := topo_run te funcs (rs_down st) (rs_up st) (phi te funcs x1) x1 in
   let out := t_out xf in
   let missing := filter (fun i => negb (memb i (t_done xf))) idx in
   let pick i := match getp funcs i with Some p => [p] | None => [] end in
@@ -314,17 +314,15 @@ Proof.
     destruct G as [[G1 _] _ _ _]. exact G1.
 Qed.
 
-(* whenever the computable bound holds, the sort inside reorder_funcs ends with empty queues and any
-   larger amount of fuel gives the same run: the model's Reorder is the unfuelled algorithm *)
-Theorem reorder_fuel_sufficient te funcs : reorder_fuel_ok te funcs = true -> existsb is_reorder funcs = true ->
+(* the sort inside reorder_funcs ends with empty queues and any larger amount of fuel gives the same
+   run, for every list of providers: the model's Reorder is the unfuelled algorithm of reorder.go *)
+Theorem reorder_fuel_sufficient te funcs :
   let '(st, x1) := reorder_prepare te funcs in
-  queues_empty (topo_run te funcs (rs_down st) (rs_up st) (reorder_fuel st) x1) /\
-  forall extra, topo_run te funcs (rs_down st) (rs_up st) (reorder_fuel st + extra) x1
-                = topo_run te funcs (rs_down st) (rs_up st) (reorder_fuel st) x1.
+  queues_empty (topo_run te funcs (rs_down st) (rs_up st) (phi te funcs x1) x1) /\
+  forall extra, topo_run te funcs (rs_down st) (rs_up st) (phi te funcs x1 + extra) x1
+                = topo_run te funcs (rs_down st) (rs_up st) (phi te funcs x1) x1.
 Proof.
-  unfold reorder_fuel_ok. intros H Hr. rewrite Hr in H. cbn [negb orb] in H.
   destruct (prepare_nodes te funcs) as [Hl Hc].
   destruct (reorder_prepare te funcs) as [st x1]. cbn [fst snd] in Hl, Hc.
-  apply Nat.leb_le in H. apply topo_run_fuel; [lia|exact H].
+  apply topo_run_fuel; lia.
 Qed.
-
